@@ -57,7 +57,8 @@ PROVED = ('For every start-up script, every peer start state and every interleav
           'of all 256 dongle status bytes. Round 3: for a new start-up on the same driver object (restart / reconnect) from an '
           'arbitrary earlier world, safelink mode, needs_resending and frame stamping depend on that start-up alone. Round 5: on a '
           'dongle shared by several instances and scans every SEND_PACKET leaves tuned to its own instance\'s setting, for all '
-          'command histories; the cached-tuple variant is refuted.')
+          'command histories; the cached-tuple variant is refuted. Round 6: with a fresh result per transfer every instance reads '
+          'exactly the answers of its own transfers in order under every interleaving; a result cell shared per dongle is refuted.')
 NOT_PROVED = ('No guarantee when the negotiation is not confirmed but the peer enabled safelink (two generals) nor after an '
               'exception of radio.send_packet (refuted by witness). Not modelled: wall-clock time, pause()/restart(), rate '
               'limiting and relaxation sleeps, the shared-radio multiplexing thread, rate/RSSI/congestion statistics (only '
@@ -567,6 +568,86 @@ def command_results(ctx):
     return _cmd_runs[key]
 
 
+def _pair_script(rng, n, mark):
+    """a link's own script; payloads start with `mark` so that packets of the two links can be told apart"""
+    evs = []
+    ns = nq = 0
+    for _ in range(n):
+        r = rng.random()
+        if r < 0.3:
+            ns += 1
+            evs.append(['S', _app_hdr(rng), [mark, ns & 0xff]])
+        elif r < 0.5:
+            nq += 1
+            evs.append(['Q', _fw_hdr(rng), [mark ^ 0x0f, nq & 0xff]])
+        elif r < 0.6:
+            evs.append(['R'])
+        else:
+            evs.append(['T', rng.choice('OOOOUA'), rng.choice([[], [1, 0x24]])])
+    return evs + [['D']]
+
+
+def pair_cases(ctx):
+    """two complete links (own safelink session, own Crazyflie, own loss script) on ONE dongle, under a gate that decides
+    who moves between the hand-over points (about to transfer / holds the answer, not yet looked at)"""
+    rng = ctx.rng
+    out = []
+    small_a = [['S', 0x3c, [0xa1, 1]], ['Q', 0x50, [0xae, 1]], ['T', 'O', []], ['D']]
+    small_b = [['S', 0x4c, [0xb1, 1]], ['Q', 0x60, [0xbe, 1]], ['T', 'A', []], ['D']]
+    # B's complete transfer placed inside each of A's first windows (and vice versa)
+    for sched in ('aabbb' * 6, 'bbaaa' * 6, 'ab' * 20, 'aabb' * 10, 'abbba' * 8, 'a' * 7 + 'b' * 7 + 'aabbb' * 5):
+        out.append({'pair': 1, 'N': 3, 'schedule': sched, 'family': 'pair',
+                    'A': {'p0': dict(P0_STD), 'negs': ['O'], 'evs': [list(e) for e in small_a]},
+                    'B': {'p0': dict(P0_STD), 'negs': ['O'], 'evs': [list(e) for e in small_b]}})
+    for _ in range(ctx.scale(30, 500)):
+        n = rng.randrange(3, ctx.scale(25, 60))
+        out.append({'pair': 1, 'N': rng.choice([3, 5, 100]), 'family': 'pair',
+                    'schedule': ''.join(rng.choice('ab') for _ in range(rng.randrange(0, 200))),
+                    'A': {'p0': dict(P0_STD), 'negs': rng.choice([['O'], ['A', 'O']]), 'evs': _pair_script(rng, n, 0xa1)},
+                    'B': {'p0': dict(P0_STD), 'negs': rng.choice([['O'], ['U', 'O']]), 'evs': _pair_script(rng, rng.randrange(3, 25), 0xb1)}})
+    return out
+
+
+_pair_runs = {}
+
+
+def pair_results(ctx):
+    key = (ctx.tier, ctx.seed, ctx.repo)
+    if key not in _pair_runs:
+        out = []
+        for c in pair_cases(ctx):
+            try:
+                out.append((c, run_impl(c), None))
+            except Exception:
+                import traceback
+                out.append((c, None, traceback.format_exc()[-1000:]))
+        _pair_runs.clear()
+        _pair_runs[key] = out
+    return _pair_runs[key]
+
+
+def judge_pair(case, res):
+    """the ordinary C01 oracle on EACH of the two links, plus: nothing a link receives comes from the other link's Crazyflie"""
+    fails = []
+    pc = {k: v for k, v in case.items() if k != 'family'}
+    if res.hung or any(s.crashed for s in res.sims.values()):
+        return [{'class': 'radio_loop_hung' if res.hung else 'radio_loop_raised', 'case': pc, 'expected': 'both sessions end',
+                 'observed': {n: s.crashed for n, s in res.sims.items()}, 'detail': 'two links on one dongle'}]
+    for n, other in (('A', 'B'), ('B', 'A')):
+        sim, osim = res.sims[n], res.sims[other]
+        for f in judge(dict(case[n], N=case['N']), sim):
+            f['case'] = pc
+            f['detail'] = 'link %s of two links sharing the dongle: %s' % (n, f.get('detail', ''))
+            fails.append(f)
+        mine = [[(q[0] & 0xf3) | 0x0c] + q[1:] for q in sim.queued]
+        theirs = [[(q[0] & 0xf3) | 0x0c] + q[1:] for q in osim.queued]
+        alien = [f for f in sim.got + sim.final['inq'] if _nn(f) and f in theirs and f not in mine]
+        if alien:
+            fails.append({'class': 'other_links_packet_received', 'case': pc, 'expected': [], 'observed': alien[:3],
+                          'detail': "receive_packet on link %s returned packets queued by link %s's Crazyflie" % (n, other)})
+    return fails
+
+
 def corpus_cases():
     import glob
     import json
@@ -670,6 +751,31 @@ def tie(ctx):
                         'case': c, 'first_difference_at': first,
                         'model': None if mv is None else mv[max(0, (first or 0) - 12):(first or 0) + 12],
                         'impl': exp[bi][max(0, (first or 0) - 12):(first or 0) + 12]})
+    # ---- two complete links on one dongle under the gate: each link observes exactly what it would observe alone
+    for c, pres, err in pair_results(ctx):
+        dist['pair'] = dist.get('pair', 0) + 1
+        if pres is None or pres.hung or any(s.crashed for s in pres.sims.values()):
+            dis.append({'what': 'two links on one dongle: the real stack raised or hung', 'case': c,
+                        'impl': err or {n: s.crashed for n, s in pres.sims.items()}, 'model': None})
+            continue
+        pt, pe = [], []
+        for n in 'AB':
+            sub = dict(c[n], N=c['N'])
+            pt.append(coq_term(explicit(sub, pres.sims[n])))
+            pe.append(pres.sims[n].flat)
+        c['_terms'], c['_exp'] = pt, pe
+    pcs = [c for c, r, e in pair_results(ctx) if '_terms' in c]
+    pterms2 = [t for c in pcs for t in c['_terms']]
+    pexp2 = [e for c in pcs for e in c['_exp']]
+    for bi, mv in compare_cases(pterms2, pexp2):
+        if len(dis) < 8:
+            c = pcs[bi // 2]
+            dis.append({'what': 'two links on one dongle: link %s does not observe what it observes alone' % 'AB'[bi % 2],
+                        'case': {k: v for k, v in c.items() if not k.startswith('_') and k != 'family'},
+                        'model': None if mv is None else mv[:40], 'impl': pexp2[bi][:40]})
+    for c in pcs:
+        c.pop('_terms', None)
+        c.pop('_exp', None)
     # ---- the shared dongle: command histories through the real RadioManager / _SharedRadio thread / _SharedRadioInstance /
     #      Crazyradio on a dongle with tuning state; per packet on the air (channel, datarate, address, bytes) == Model.rexec
     cterms, cexp, cidx = [], [], []
@@ -724,7 +830,7 @@ def tie(ctx):
             if len(samples) >= 3:
                 break
     return {
-        'evaluations': len(terms) + len(pterms) + len(cterms),
+        'evaluations': len(terms) + len(pterms) + len(cterms) + len(pterms2),
         'distinct_nontrivial': nontriv,
         'rule': 'distinct explicit scripts with >= 1 unacknowledged transmission and >= 2 non-null packets delivered in '
                 'each direction (host-only family: >= 1 unacknowledged/USB-error answer and >= 2 packets received); '
@@ -921,6 +1027,32 @@ def _shrink(case, cls, budget=250):
     return best
 
 
+def _shrink_pair(f, budget=60):
+    """drop events of either link's script / shorten the schedule while the same class still fails"""
+    best = f
+    runs = 0
+
+    def attempt(c):
+        nonlocal runs, best
+        runs += 1
+        try:
+            got = [x for x in judge_pair(c, run_impl(c)) if x['class'] == f['class']]
+        except Exception:
+            return False
+        if got:
+            best = got[0]
+            return True
+        return False
+    for n in 'AB':
+        i = 0
+        while runs < budget and i < len(best['case'][n]['evs']) - 1:
+            c = dict(best['case'])
+            c[n] = dict(c[n], evs=c[n]['evs'][:i] + c[n]['evs'][i + 1:])
+            if not attempt(c):
+                i += 1
+    return best
+
+
 def _cmds_fail(cmds):
     from fakes import c01_shared
     try:
@@ -982,6 +1114,15 @@ def oracle(ctx, deep=False):
         except Exception:
             import traceback
             res.append((c, None, traceback.format_exc()[-1200:]))
+    pair_fails = []
+    n_pair = 0
+    for c, pres, err in pair_results(ctx):
+        n_pair += 1
+        if pres is None:
+            pair_fails.append({'class': 'radio_loop_raised', 'case': {k: v for k, v in c.items() if k != 'family'},
+                               'expected': 'no exception', 'observed': err, 'detail': 'two links on one dongle'})
+        else:
+            pair_fails += judge_pair(c, pres)
     cmd_fail = None
     n_cmd = 0
     for r in command_results(ctx):
@@ -993,7 +1134,11 @@ def oracle(ctx, deep=False):
             cmd_fail = (r[0], bad[0])
     fails = []
     seen = set()
-    n = n_stat + n_cmd
+    n = n_stat + n_cmd + n_pair
+    for f in pair_fails:
+        if f['class'] not in seen:
+            seen.add(f['class'])
+            fails.append(_shrink_pair(f))
     if cmd_fail:
         small = _shrink_cmds(cmd_fail[0])
         seen.add('send_on_wrong_tuning')
@@ -1035,6 +1180,13 @@ def oracle(ctx, deep=False):
 
 def replay(payload, ctx):
     c = payload['case']
+    if c.get('pair'):
+        fs = judge_pair(c, run_impl(c))
+        want = payload.get('class')
+        for f in fs:
+            if want is None or f['class'] == want:
+                return f
+        return fs[0] if fs else None
     if 'cmds' in c:
         return {'class': 'send_on_wrong_tuning', 'observed': 'still mis-tuned'} if _cmds_fail(c['cmds']) else None
     if payload.get('class') == 'statistics_affect_the_link':
